@@ -32,6 +32,20 @@ func genChildren(r *Rng, k int) []child {
 		if r.Intn(4) == 0 {
 			n = "z" + n
 		}
+		switch r.Intn(14) { // names a listing must not trip over: leading dots, odd bytes, other sort positions
+		case 0:
+			n = "." + n
+		case 1:
+			n = ".." + n
+		case 2:
+			n = n + "."
+		case 3:
+			n = "é" + n
+		case 4:
+			n = "A" + n
+		case 5:
+			n = "-" + n + " x"
+		}
 		if seen[n] {
 			continue
 		}
@@ -219,7 +233,7 @@ func runC16(r *Rng, n int, replay string) {
 		default:
 			k = r.Range(100, 300)
 		}
-		dir := []string{".", "d", "d/e"}[r.Intn(3)]
+		dir := []string{".", "d", "d/e", ".d", ".d/e", "d/.e"}[r.Intn(6)]
 		cs := genChildren(r, k)
 		pages := genPages(r, k)
 		fs, done := l.build(dir, cs)
@@ -412,7 +426,7 @@ func runC16(r *Rng, n int, replay string) {
 func runC16Retry(r *Rng, n, firstID int) {
 	for id := firstID; id < firstID+n; id++ {
 		k := r.Range(2, 12)
-		dir := []string{".", "d", "d/e"}[r.Intn(3)]
+		dir := []string{".", "d", "d/e", ".d", ".d/e", "d/.e"}[r.Intn(6)]
 		cs := genChildren(r, k)
 		fs, ps := newKVPlain()
 		populate(fs, dir, cs)
